@@ -15,6 +15,8 @@
 -/
 import Proofs.Row
 import Proofs.RowSerial
+import Proofs.RowTie
+import Proofs.RowTieAll
 
 namespace Jl.C06
 open Jl LRow
@@ -210,5 +212,36 @@ theorem existing_key_never_moves (ops : CellOps C V E) (pre post : List (RowOp C
     (n₂ : RowSerial.NoErr ops ((LRow.empty.run ops pre).step ops op).1 post) :
     (LRow.empty.run ops (pre ++ op :: post)).l = (LRow.empty.run ops (pre ++ post)).l :=
   RowSerial.existing_key_never_moves ops pre post op k c hk hc n₁ n₂
+
+
+/-! ### The row of the model is `row.go` (Proofs/RowTie, Proofs/RowTieAll)
+
+`extract/rowfacts.go` runs every function of `row.go` through the symbolic executor and classifies
+the result into the shapes of `Model.RowFactsSyntax` (`Gen.RowFacts`, regenerated on every run). -/
+
+/-- Nothing in the regenerated facts is unknown, they are the facts the model assumes, and nowhere
+    in the package is the key list shortened or reordered, or a map entry deleted: the list is
+    only read (`Front`, `Len`) or extended (`PushBack`). -/
+theorem row_model_is_the_source :
+    Gen.rowFacts.known = true ∧ Gen.rowFacts = RowFactsSpec.expected ∧
+    (∀ m ∈ Gen.rowFacts.listMethods, m ∈ ["Front", "Len", "PushBack"]) ∧
+    Gen.rowFacts.mapDeletes = 0 :=
+  ⟨RowTie.row_facts_known, RowTie.row_facts_as_modelled, RowTie.list_only_grows.1,
+   RowTie.list_only_grows.2⟩
+
+/-- The three keyed mutators, as the source writes them today, ARE `LRow.set`, `LRow.setValue`
+    and `LRow.importAtKey` — whatever the cells do. -/
+theorem mutators_are_the_source :
+    (∀ {C V E : Type} (ops : CellOps C V E) (r : LRow C) (k : Bytes) (x : V),
+      RowTie.keyedRun Gen.rowFacts.set (RowTie.ofCellOps ops) r k x = some (r.set ops k x, none)) ∧
+    (∀ {C E : Type} (r : LRow C) (k : Bytes) (c : C),
+      RowTie.keyedRun Gen.rowFacts.setValue (RowTie.cellArg (E := E)) r k c =
+        some (r.setValue k c, none)) ∧
+    (∀ {C V E : Type} (ops : CellOps C V E) (r : LRow C) (k : Bytes) (x : V),
+      RowTie.keyedRun Gen.rowFacts.importAtKey (RowTie.ofCellOps ops) r k x =
+        some (r.importAtKey ops k x)) :=
+  ⟨fun ops r k x => RowTie.set_as_modelled ops r k x,
+   fun r k c => RowTie.setValue_as_modelled r k c,
+   fun ops r k x => RowTie.importAtKey_as_modelled ops r k x⟩
 
 end Jl.C06
